@@ -47,6 +47,10 @@ pub struct Shared {
     pub recv_calls: u64,
     pub send_calls: u64,
     pub log_io: bool,
+    /// After a sendmsg has written its bytes, return Pending once before reporting completion (a
+    /// transport may always yield there; on a multi-threaded runtime this is the window in which the
+    /// reader task runs between the write and the sender's next instruction).
+    pub yield_after_write: bool,
 }
 
 pub type Sh = Arc<Mutex<Shared>>;
@@ -69,6 +73,7 @@ pub fn new_shared() -> Sh {
         recv_calls: 0,
         send_calls: 0,
         log_io: true,
+        yield_after_write: false,
     }))
 }
 
@@ -200,11 +205,15 @@ struct SendFut<'a> {
     sh: &'a Sh,
     buf: &'a [u8],
     nfds: usize,
+    done: Option<usize>,
 }
 impl Future for SendFut<'_> {
     type Output = io::Result<usize>;
     fn poll(self: Pin<&mut Self>, cx: &mut Context<'_>) -> Poll<Self::Output> {
         let this = self.get_mut();
+        if let Some(n) = this.done {
+            return Poll::Ready(Ok(n));
+        }
         let mut s = this.sh.lock().unwrap();
         match s.write_fault {
             Fault::Err | Fault::Eof => {
@@ -237,6 +246,11 @@ impl Future for SendFut<'_> {
             let nf = this.nfds;
             s.events.push(json!({"ev":"Sendmsg","len":l,"accepted":n,"nfds":nf,"off":off}));
         }
+        if s.yield_after_write {
+            this.done = Some(n);
+            cx.waker().wake_by_ref();
+            return Poll::Pending;
+        }
         Poll::Ready(Ok(n))
     }
 }
@@ -244,7 +258,7 @@ impl Future for SendFut<'_> {
 #[async_trait::async_trait]
 impl zbus::connection::socket::WriteHalf for ScriptWrite {
     async fn sendmsg(&mut self, buf: &[u8], fds: &[BorrowedFd<'_>]) -> io::Result<usize> {
-        SendFut { sh: &self.0, buf, nfds: fds.len() }.await
+        SendFut { sh: &self.0, buf, nfds: fds.len(), done: None }.await
     }
     async fn close(&mut self) -> io::Result<()> {
         let mut s = self.0.lock().unwrap();
